@@ -2,6 +2,8 @@ import PharmpyProofs.C20.Lemmas
 import PharmpyProofs.C20.Layout
 import PharmpyProofs.C20.Split
 import PharmpyProofs.C20.Sym
+import PharmpyProofs.C20.Ext
+import PharmpyProofs.C20.Zero
 import PharmpyModel.C20.Spec
 /-
   C20 — Estimation results are read faithfully from NONMEM output.  Property theorems only.
@@ -211,5 +213,144 @@ theorem etc_bad_length {α : Type} (zero : α) (x : List α)
     properties use (regenerated from the source on every run) are the documented ones. -/
 theorem ext_codes_as_documented : Generated.extProps = documentedExtProps := by
   decide
+
+/-- `df.loc[df['ITERATION'] == code]`: exactly the rows whose ITERATION cell denotes `code`, in
+    file order (any frame, any number of rows). -/
+theorem ext_rows (f : Frame) (code : Int) (rs : List (List (Option Str)))
+    (h : rowsWithIter f code = .ok rs) : rs = f.rows.filter (rowHasIter code) :=
+  rowsWithIter_eq f code rs h
+
+/-- …and an integer ITERATION cell written by the reference writer is recognised as `code` iff it
+    is `code` (so estimates / SE / fixed flags / OFV come from the designated rows only). -/
+theorem ext_iteration_cell (i code : Int) (rest : List (Option Str)) :
+    rowHasIter code (some (renderCell (.int i)) :: rest) = (i == code) :=
+  rowHasIter_int i code rest
+
+/-- `final_parameter_estimates` / `final_ofv`: when the designated row exists it is used. -/
+theorem ext_designated_row_wins {α : Type} (raw : Frame) (code : Int) (get : Int → Except Err α) (v : α)
+    (h : get code = .ok v) : withFallback raw code get = .ok v := by
+  simp [withFallback, h]
+
+/-- Fallback rule: when the designated row is absent (KeyError), the row of the largest
+    non-negative iteration number is used — it is one of the iterations and bounds all of them. -/
+theorem ext_fallback_last_iteration {α : Type} (raw : Frame) (code : Int) (get : Int → Except Err α)
+    (its : List Dec) (d : Dec) (hk : get code = .error .keyError) (hi : iterations raw = .ok its)
+    (hint : ∀ x ∈ its, x.e = 0) (hm : maxDec its = some d) :
+    withFallback raw code get = get d.m ∧ d ∈ its ∧ ∀ x ∈ its, x.m ≤ d.m := by
+  obtain ⟨h1, h2, h3⟩ := maxDec_int its hint d hm
+  refine ⟨?_, h1, h3⟩
+  simp [withFallback, hk, hi, hm, h2]
+
+/-- No designated row and no iteration row: refused (ValueError), nothing is invented. -/
+theorem ext_fallback_refused {α : Type} (raw : Frame) (code : Int) (get : Int → Except Err α)
+    (hk : get code = .error .keyError) (hi : iterations raw = .ok []) :
+    withFallback raw code get = .error .noIterations := by
+  simp [withFallback, hk, hi, maxDec]
+
+/-! ## .cov / .cor / .coi files -/
+
+/-- Fixed parameters are dropped consistently: for every square matrix whose zero pattern is
+    symmetric (all sizes), the row mask and the column mask of
+    `df.loc[(df != 0).any(axis=1), (df != 0).any(axis=0)]` coincide, so the result has the same
+    labels on both axes, in the original order. -/
+theorem fixed_dropped_consistently (m : Matrix) (n : Nat) (hlab : m.index = m.cols)
+    (hc : m.cols.length = n) (hr : m.rows.length = n) (hsq : ∀ r ∈ m.rows, r.length = n)
+    (hsym : ∀ i j, i < n → j < n → cellNonzero (ent m.rows i j) = cellNonzero (ent m.rows j i)) :
+    keptRows m.rows = keptCols m.cols.length m.rows
+      ∧ (dropZero m).index = (dropZero m).cols
+      ∧ List.Sublist (dropZero m).index m.index
+      ∧ (dropZero m).rows = (selectMask m.rows (keptRows m.rows)).map (fun r => selectMask r (keptRows m.rows)) := by
+  have hk : keptRows m.rows = keptCols m.cols.length m.rows := by
+    rw [hc]; exact keptRows_eq_keptCols m.rows n hr hsq hsym
+  refine ⟨hk, ?_, ?_, ?_⟩
+  · simp only [dropZero, hlab, hk]
+  · exact selectMask_sublist _ _
+  · simp only [dropZero, hk]
+
+/-- The full statement without symmetry is false: with an asymmetric zero pattern the row and
+    column masks differ and the result is not square-labelled. -/
+theorem fixed_dropped_witness :
+    let m : Matrix := ⟨[['A'], ['B']], [['A'], ['B']], [[some ['1'], some ['1']], [some ['0'], some ['0']]]⟩
+    (dropZero m).index = [['A']] ∧ (dropZero m).cols = [['A'], ['B']] := by
+  decide +kernel
+
+/-! ## $TABLE output: repeated header lines -/
+
+/-- Every repeated header line (a line `\s[A-Za-z_]…`) after the first line is removed and every
+    other line is kept, in order — for any number of lines. -/
+theorem repeated_headers_dropped (h : Str) (rest : List Str) :
+    dropRepeatedHeaders (h :: rest) = h :: rest.filter (fun l => !looksLikeHeader l) := rfl
+
+/-- In a file where header copies are the lines matching `\\s[A-Za-z_]` (flag `true`) and data lines
+    do not match (flag `false`), exactly the data lines survive, in order. -/
+theorem repeated_headers_removed (h : Str) (ls : List (Bool × Str))
+    (hh : ∀ p ∈ ls, looksLikeHeader p.2 = p.1) :
+    dropRepeatedHeaders (h :: ls.map (·.2)) = h :: (ls.filter (fun p => !p.1)).map (·.2) := by
+  simp only [dropRepeatedHeaders, List.filter_map]
+  congr 2
+  apply List.filter_congr
+  intro p hp
+  simp [Function.comp, hh p hp]
+
+/-- A numeric cell starts with a digit or a minus sign… -/
+theorem numeric_cell_head (cell : Cell) (hnum : ∀ s, cell ≠ .label s) :
+    ∃ c t, renderCell cell = c :: t ∧ (isDig c = true ∨ c = '-') := by
+  have hnat : ∀ n, ∃ c t, natDigits n = c :: t ∧ isDig c = true := by
+    intro n
+    cases h : natDigits n with
+    | nil => exact absurd h (natDigits_ne_nil n)
+    | cons c t => exact ⟨c, t, rfl, natDigits_allDig n c (by rw [h]; simp)⟩
+  cases cell with
+  | label s => exact absurd rfl (hnum s)
+  | int i =>
+    simp only [renderCell]
+    split
+    · exact ⟨'-', _, rfl, Or.inr rfl⟩
+    · obtain ⟨c, t, h1, h2⟩ := hnat i.toNat
+      exact ⟨c, t, h1, Or.inl h2⟩
+  | sci neg d mant exp =>
+    cases neg with
+    | true => exact ⟨'-', _, rfl, Or.inr rfl⟩
+    | false =>
+      exact ⟨digitChar (mant / 10 ^ d % 10), _, rfl, Or.inl (isDig_digitChar _)⟩
+  | fix neg ip k fp =>
+    cases neg with
+    | true => exact ⟨'-', _, rfl, Or.inr rfl⟩
+    | false =>
+      obtain ⟨c, t, h1, h2⟩ := hnat ip
+      exact ⟨c, t ++ '.' :: padDigits k fp, by simp [renderCell, signStr, h1], Or.inl h2⟩
+
+/-- …so a data line whose first field is a right-justified number that fits is never mistaken
+    for a repeated header line (and is kept by `dropRepeatedHeaders`). -/
+theorem data_line_not_header (w : Nat) (cell : Cell) (rest : Str) (hnum : ∀ s, cell ≠ .label s)
+    (hfit : (renderCell cell).length < w) :
+    looksLikeHeader (padLeft w (renderCell cell) ++ rest) = false := by
+  obtain ⟨c, t, hct, hc⟩ := numeric_cell_head cell hnum
+  have hnotalpha : (isAlpha c || c == '_') = false := by
+    rcases hc with hc | hc
+    · simp only [isDig, Bool.and_eq_true, decide_eq_true_eq] at hc
+      have h9 : c ≤ '9' := hc.2
+      have e1 : isAlpha c = false := by
+        simp only [isAlpha, isUpper, isLower, Bool.or_eq_false_iff, Bool.and_eq_false_iff, decide_eq_false_iff_not]
+        constructor
+        · left; intro hA; exact absurd (Char.le_trans hA h9) (by decide)
+        · left; intro ha; exact absurd (Char.le_trans ha h9) (by decide)
+      have e2 : (c == '_') = false := by
+        simp only [beq_eq_false_iff_ne, ne_eq]; intro e; subst e; exact absurd h9 (by decide)
+      simp [e1, e2]
+    · subst hc; decide
+  obtain ⟨k, hk⟩ : ∃ k, w - (renderCell cell).length = k + 1 := ⟨w - (renderCell cell).length - 1, by omega⟩
+  have e : padLeft w (renderCell cell) = blanks (k + 1) ++ renderCell cell := by simp [padLeft, hk]
+  rw [e, hct]
+  cases k with
+  | zero =>
+    have : blanks (0 + 1) ++ c :: t ++ rest = ' ' :: c :: (t ++ rest) := by simp [blanks]
+    rw [this]
+    simp only [looksLikeHeader, hnotalpha, Bool.and_false]
+  | succ k =>
+    have : blanks (k + 1 + 1) ++ c :: t ++ rest = ' ' :: ' ' :: (blanks k ++ c :: t ++ rest) := by
+      simp [blanks, List.replicate_succ]
+    rw [this]
+    simp [looksLikeHeader, isAlpha, isUpper, isLower]
 
 end Pharmpy.C20
